@@ -39,7 +39,78 @@ GSM7 = Stage(
     nontrivial=lambda e: e.get("ev") not in ("SweepStart", "SweepEnd"),
 )
 
+SPLIT = Stage(
+    family="split",
+    mc={"quick": [("MC_Split.tla", "MC_Split_greedy.cfg", "pass"), ("MC_Split.tla", "MC_Split_packedNew.cfg", "pass"),
+                  ("MC_Split.tla", "MC_Split_generic1.cfg", "pass"),
+                  ("MC_Split.tla", "MC_Split_packedOld.cfg", "fail"), ("MC_Split.tla", "MC_Split_generic.cfg", "fail")],
+        "thorough": [("MC_Split.tla", "MC_Split_greedy_t.cfg", "pass"), ("MC_Split.tla", "MC_Split_packedNew_t.cfg", "pass"),
+                     ("MC_Split.tla", "MC_Split_generic1.cfg", "pass"),
+                     ("MC_Split.tla", "MC_Split_packedOld.cfg", "fail"), ("MC_Split.tla", "MC_Split_generic.cfg", "fail")]},
+    parts={"quick": [("shapes", 6), ("random", 1), ("parse", 1)], "thorough": [("shapes", 8), ("random", 8), ("parse", 2)]},
+    trace=("Trace_Split.tla", "Trace_Split.cfg"),
+    nontrivial=lambda e: e.get("ev") in ("Split", "Parse", "Sweep"),
+)
+
 CHECKS = {
+    "C06": dict(
+        stages=[SPLIT],
+        technique="TLA+ relation between a text's unit stream and the produced parts (Split.tla/Text.tla): TLC exhaustive on "
+                  "the splitter loops as step machines at scaled capacities + TLC validation of recorded real splits",
+        level_text="TLC checks Preserves/TotalOK/SizeOK/WholeOK/MinimalOK/termination for every text of <=9 (thorough 13) "
+                   "characters (1-unit and escape-pair characters) on the greedy reference and the repaired packed loop; the packed "
+                   "loop as written before the fix and the coding-agnostic fixed-width cut are negative configurations.  Every "
+                   "recorded real split is then judged by TLC: the payloads (headers removed, packed parts unpacked with the "
+                   "septet count) must concatenate to the unit stream TLC computes from the text under the reported coding, "
+                   "the reported coding must be the requested one iff it can represent the text, a fitting text must come back "
+                   "as one header-less part",
+        level_note="ASCII/UCS-2/GSM-7 unit streams are computed by TLC from the text (Text.tla, Gsm7.tla); for Latin-1 (Windows-1252) "
+                   "and GB18030 the x/text decoding of the concatenated payloads is logged by the driver and compared by TLC, and "
+                   "representability is observed by calling the single-coding codec; packed parts are unpacked by a reference "
+                   "unpacker that searches the septet count (Tiles)",
+        rule="one event per EncodeCMPP/SMPPContentAndSplit call (text, coding, reference byte -> parts, reported coding): boundary "
+             "shapes at 140/160 and k*134/k*153 +-2 with a multi-unit character at every offset -3..+3 of every part boundary, "
+             "invalid coding numbers, unrepresentable texts, random texts; ParseLongSmsContent on all headers (intervals) and "
+             "near misses; distinct = distinct events",
+        assumptions=["x/text GB18030 and Windows-1252 tables", "TS 23.038 tables as transcribed"],
+    ),
+    "C07": dict(
+        stages=[SPLIT],
+        technique="same specification as C06 (Split.tla): part sizes, header octets, minimal part count against the greedy "
+                  "whole-character reference, >255 parts, and ParseUDH for both header forms",
+        level_text="On every recorded split TLC checks 0 < payload <= 134 octets / 153 septets, header = 05 00 03 ref total seq "
+                   "with total = number of parts and seq = 1..total, number of parts <= the greedy whole-character reference "
+                   "computed by TLC, and refusal above 255 parts; ParseLongSmsContent is compared with ParseUDH on every "
+                   "(total,seq) for the swept references, all 65,536 16-bit references (interval classes), near-miss headers and "
+                   "random strings",
+        level_note="ASCII/UCS-2/GSM-7 unit streams are computed by TLC from the text (Text.tla, Gsm7.tla); for Latin-1 (Windows-1252) "
+                   "and GB18030 the x/text decoding of the concatenated payloads is logged by the driver and compared by TLC, and "
+                   "representability is observed by calling the single-coding codec; packed parts are unpacked by a reference "
+                   "unpacker that searches the septet count (Tiles)",
+        rule="one event per EncodeCMPP/SMPPContentAndSplit call (text, coding, reference byte -> parts, reported coding): boundary "
+             "shapes at 140/160 and k*134/k*153 +-2 with a multi-unit character at every offset -3..+3 of every part boundary, "
+             "invalid coding numbers, unrepresentable texts, random texts; ParseLongSmsContent on all headers (intervals) and "
+             "near misses; distinct = distinct events",
+        assumptions=["x/text GB18030 and Windows-1252 tables", "TS 23.038 tables as transcribed"],
+    ),
+    "C14": dict(
+        stages=[SPLIT],
+        technique="same specification as C06 (Split.tla/Text.tla): structural segmentation of every part payload into whole "
+                  "characters (GSM-7 escape pairs, UTF-16 surrogate pairs, GB18030 1/2/4-octet forms)",
+        level_text="TLC segments the payload of every part of every recorded multi-part split by the coding's structural rules "
+                   "and requires the segmentation to end exactly at the payload end (packed GSM-7: every tiled septet chunk must "
+                   "be whole characters); WholeOK is model-checked on the loops for all short texts, the fixed-width cut being "
+                   "the negative configuration",
+        level_note="ASCII/UCS-2/GSM-7 unit streams are computed by TLC from the text (Text.tla, Gsm7.tla); for Latin-1 (Windows-1252) "
+                   "and GB18030 the x/text decoding of the concatenated payloads is logged by the driver and compared by TLC, and "
+                   "representability is observed by calling the single-coding codec; packed parts are unpacked by a reference "
+                   "unpacker that searches the septet count (Tiles)",
+        rule="one event per EncodeCMPP/SMPPContentAndSplit call (text, coding, reference byte -> parts, reported coding): boundary "
+             "shapes at 140/160 and k*134/k*153 +-2 with a multi-unit character at every offset -3..+3 of every part boundary, "
+             "invalid coding numbers, unrepresentable texts, random texts; ParseLongSmsContent on all headers (intervals) and "
+             "near misses; distinct = distinct events",
+        assumptions=["x/text GB18030 and Windows-1252 tables", "TS 23.038 tables as transcribed"],
+    ),
     "C08": dict(
         stages=[GSM7],
         technique="TS 23.038 tables and bit-stream packing transcribed into TLA+ (Gsm7.tla): TLC exhaustive on the streaming "
